@@ -7,15 +7,27 @@ Props/C14Tok.lean; driver lean/drivers/C14.lean.
 
 Cases (JSON), by "kind":
   chain (default)  {"chain":[E..], "vals":[{"d":int,"c":P|null}..], "wild":bool}
-      Sequence(E..) and Compose(E..) applied twice to every value; model: seqCall / mkCompose+call, plus the
-      specification side (chainWFb, chainOKb, composeData, argsTypes, fold of UP, Leaf.ctx, leavesOKb)
-  attr             {"kind":"attr","expr":E,"ops":[{"get":s}|{"set":s,"v":P}|{"item":i}|{"call":value}|{"vcn":true}|{"vc":true}..]}
-      __getattr__, __setattr__, Combine.__getitem__ on one variable, in order
+      Sequence(E..) and Compose(E..) applied twice to every value (one value per flow), then Sequence(E..) and
+      Sequence(Compose(E..)) run on ONE flow that holds every value twice (consumed lazily), then the same Sequence
+      object once more; after every result has been recorded its context is changed in place (every dict, list, set,
+      deque, user object reachable from it) -- nothing the variables own may notice; the var_context of EVERY
+      constructed Variable (arguments of Compose/Combine at any depth) is compared with what it was right after its
+      construction; model: seqCall / seqRun / mkCompose+call, plus the specification side (chainWFk = chainWFb,
+      chainOKk = chainOKb, composeData, argsTypes, fold of UP, Leaf.ctx, leavesOKb)
+  attr             {"kind":"attr","expr":E,"ops":[{"get":s}|{"set":s,"v":P}|{"vcset":s,"v":P}|{"vcdel":s}|{"mut":s,"v":P}|
+                    {"item":i}|{"call":value}|{"vcn":true}|{"vc":true}..]}
+      __getattr__, __setattr__, Combine.__getitem__, the public dictionary var_context (item assignment, deletion) and
+      in-place changes of attribute values (`mut`: "v" is the value afterwards) on one variable, in order; every `call`
+      records the var_context before it and changes the returned context in place afterwards
   tok              {"kind":"tok","expr":E,"val":value,"reps":k}
-      the variable applied k times, each time to the previous result, with id() of every list/dict (token model)
+      the variable applied k times, each time to the previous result, with id() of every mutable object (token model)
+  ctor             {"kind":"ctor","k":"compose"|"combine","args":[E..]}
+      Compose(*args) / Combine(*args) on object identities: nothing of an argument is written, the new var_context
+      shares no object with an argument (Model/C14X.lean composeInitT for Compose)
   E = {"k":"var","name":P,"getter":{"tag":i}|"variable"|"notcallable","type":P,"kw":{key:P}}
     | {"k":"compose","args":[E..],"kw":{key:P}} | {"k":"combine","args":[E..],"kw":{key:P}} | {"k":"other"}
-  P (a Python value) = int | str | {"l":[P..]} (list) | {"t":[P..]} (tuple) | {"d":{key:P}} (dict)
+  P (a Python value) = int | str | {"l":[P..]} (list) | {"t":[P..]} (tuple) | {"d":{key:P}} (dict) | {"o":name} (None, bool,
+      float) | {"s":[P..]} (set) | {"dq":[P..]} (collections.deque) | {"od":{key:P}} (OrderedDict) | {"u":{attr:P}} (user object)
 The getter fixture {"tag":i} is `lambda x: (i, x)`: the data of a result spells out which getters were applied in
 which order.  `wild` marks cases outside the well-formedness hypotheses of the theorems (error branches, attribute
 names that clash with types, ...): they go through the correspondence with the model; of the oracle only the parts
@@ -23,6 +35,7 @@ that need no hypothesis apply to them.
 Not modelled on purpose: lena/variables/functions.py (abs, Cm) — not part of the statement; both raise
 LenaAttributeError for their default call (they use the commented-out Variable.get); recorded as a C20-side judgement.
 """
+import collections
 import copy
 import itertools
 
@@ -30,9 +43,10 @@ from harness.common import exc_name
 
 PID = "C14"
 TITLE = "Variables compose like functions and keep each variable's description"
-LEAN_MODULES = ["LenaModel.Props.C14", "LenaModel.Props.C14Tok"]
+LEAN_MODULES = ["LenaModel.Props.C14", "LenaModel.Props.C14Tok", "LenaModel.Props.C14X"]
 LEAN_SOURCES = ["LenaModel/Model/C14.lean", "LenaModel/Lemmas/C14.lean", "LenaModel/Props/C14.lean",
-                "LenaModel/Model/C14Tok.lean", "LenaModel/Lemmas/C14Tok.lean", "LenaModel/Props/C14Tok.lean"]
+                "LenaModel/Model/C14Tok.lean", "LenaModel/Lemmas/C14Tok.lean", "LenaModel/Props/C14Tok.lean",
+                "LenaModel/Model/C14X.lean", "LenaModel/Props/C14X.lean"]
 DRIVER = "drivers/C14.lean"
 # the theorems that carry the property
 THEOREMS = [
@@ -75,6 +89,15 @@ THEOREMS = [
     "Lena.C14.Tok.callT_frame",
     "Lena.C14.Tok.callT_erase",
     "Lena.C14.Tok.callT_results_equal",
+    # adversary round (Props/C14X.lean): flows of several values; attributes changed through the public dictionary /
+    # in place; constructing a Compose changes none of its arguments (object identities)
+    "Lena.C14.seqRun_get",
+    "Lena.C14.seqRun_equal_values",
+    "Lena.C14.seqRun_eq_compose_partial",
+    "Lena.C14.current_attribute_reaches_context",
+    "Lena.C14.delAttr_leaves_context",
+    "Lena.C14.Tok.composeInitT_args_untouched",
+    "Lena.C14.Tok.composeInitT_result_fresh",
 ]
 # audited too, but not obligations of the property: true by definition of the model (the clauses they stand for are
 # carried by the correspondence and the oracle), soundness of the Boolean checks, and theorems about code that is not in
@@ -102,6 +125,13 @@ AUX_THEOREMS = [
     "Lena.C14.compose_ne_sequence_pinned",
     "Lena.C14.compose_name_keyword",
     "Lena.C14.mkComposeN_no_name",
+    "Lena.C14.seqRun_eq_map",
+    "Lena.C14.seqCall_single",
+    "Lena.C14.getAttr_delAttr",
+    "Lena.C14.getAttr_delAttr_ne",
+    "Lena.C14.chainWFk_eq",
+    "Lena.C14.chainOKk_eq",
+    "Lena.C14.Tok.composeInitT_start",
 ]
 TRUSTED = [
     "Lean 4.33.0 kernel; axioms limited to propext, Classical.choice, Quot.sound (audited by #print axioms on every run)",
@@ -114,6 +144,11 @@ TRUSTED = [
     "dictionaries as slot vectors over the key alphabet of the case (DESIGN.md section 2); copy.deepcopy is the identity on "
     "values and renames every mutable object (values without internal sharing)",
     "the getter fixture x -> (i, x) on both sides; JSON line protocol encoders (harness/props/c14.py, drivers/C14.lean)",
+    "attribute values that are mutable but neither list nor dict (set, deque, user object) are held by the model as lists "
+    "that start with a tag (the code never looks inside an attribute value; the token model gives them an identity like any "
+    "list); an OrderedDict is held as a dictionary (value equality); var.var_context[a] = x and an in-place change of an "
+    "attribute value are, on values, setAttr with the new value; lena.core.Sequence(...).run(flow) on a flow of several "
+    "values is seqRun (every value through seqCall, an exception ends the flow) -- validated on every chain case",
 ]
 ASSUMPTIONS = [
     "KNOWN FINDING (notes/C14_defect_3.md, known_findings.json): sentence 1 is false of /repo when an attribute of a variable "
@@ -154,23 +189,48 @@ ASSUMPTIONS = [
     "and asks the driver for that one (recorded in the evidence notes); theorems about the variants that are not in /repo "
     "are in AUX_THEOREMS",
     "theorem hypotheses (NamesOK, ChainWF, chainOKb, LeavesOK, sepB) are Boolean functions evaluated by the driver on every "
-    "generated case; every case the harness classifies as inside the hypotheses (spec_wf) must satisfy them",
+    "generated case (ChainWF and chainOKb through chainWFk / chainOKk, proved equal in Props/C14X.lean: they look the key "
+    "numbers of the types up once instead of once per slot); every case the harness classifies as inside the hypotheses "
+    "(spec_wf) must satisfy them",
+    "JUDGEMENTS of the adversary round (notes/adversary_C14.md): (1) var_context is the documented public dictionary of the "
+    "variable's attributes ('var_context is the dictionary of attributes of the variable. It is added to context.variable "
+    "during __call__'): 'context.variable carries the attributes of the resulting variable' means the attributes the "
+    "variable has WHEN it is applied, however they were set (dot notation, var_context[a] = x, an in-place change of a "
+    "value, deletion); a copy of var_context cached across applications violates it. (2) 'keep each variable's "
+    "description' / 'changes neither the variable': constructing a Compose/Combine from a variable, giving the composition "
+    "keywords, setting attributes of the composition and applying it must not change the var_context of the argument "
+    "variables (checked on values for every constructed Variable, and on object identities in the ctor kind). (3) the "
+    "statement's last sentence is evaluated by changing the RETURNED contexts in place (what later elements of an analysis "
+    "do with the context of their value): no var_context may change and later results must be equal; whether objects are "
+    "shared is not demanded as such in the chain/attr kinds (only its observable consequence is), the tok/ctor kinds state it "
+    "on identities because the token theorems do. (4) Combine(..., name='') has the name '' (documented: the joined "
+    "name is used 'if not provided'). (5) deleting var_context['name'] makes every error message of __getattr__ recurse "
+    "(RecursionError): a variable without a name is outside the statement ('variables have name'), not generated",
+    "the state a Sequence keeps between runs: a Sequence object is run on a flow of several values and then once more on a "
+    "flow of one value; longer histories of runs of one Sequence object are not generated",
 ]
-RULE = ("chain: exhaustive chains of 1..3 leaf variables, each untyped / typed with a fresh type / typed with the shared type "
+RULE = ("Every chain case: Sequence and Compose on every value twice, then on one flow holding every value twice, then the same "
+        "Sequence object again; returned contexts are changed in place after recording; var_context of every constructed "
+        "Variable watched. chain: exhaustive chains of 1..3 leaf variables, each untyped / typed with a fresh type / typed with the shared type "
         "'ta', with and without an attribute, x 7 input values (bare, context without variable, untyped variable, typed "
         "variable, composed variable, typed-then-untyped variable, composed variable whose type equals a chain type); Combine "
         "of 1..4 leaves x typed/untyped pattern x name/type keyword, alone and between typed variables; Compose with keywords; "
         "chains whose getters return / consume data that looks like a (data, context) pair, on raw pair-shaped inputs; the "
         "documented attributes latex_name/unit/range (also None/bool/float values) on every variable of a chain; one Variable "
         "object used twice (Sequence(v,v), Compose(v,w,v), Sequence(v,Compose(v,w)), Combine(v,v)); attributes named like a type "
-        "(known finding). Seeded random chains of 1..5 expressions (leaves, nested Compose/Combine to depth 2 below the chain, "
-        "attributes from a pool of 8 names with nested values incl. None/bool/float/nan/inf, 3 getter fixtures, int / tuple / "
-        "pair-shaped data, 5% attributes named like a type, 12% shared objects, 10% a documented attribute on every leaf; "
-        "quick 700, thorough 40000) and 'wild' cases (quick 800, thorough 30000: reserved words as types and attribute names, "
+        "(known finding); attribute values that are sets, deques, OrderedDicts, user objects, falsy values; names '', 'x y', "
+        "'0', '_', duplicates for variables and Combine; Compose of ONE variable with keywords, alone and in chains. Seeded "
+        "random chains of 1..5 expressions (leaves, nested Compose/Combine to depth 2 below the chain, "
+        "attributes from a pool of 8 names with nested values incl. None/bool/float/nan/inf/set/deque/OrderedDict/user object, "
+        "3 getter fixtures, int / tuple / pair-shaped data, 5% attributes named like a type, 12% shared objects, 10% a "
+        "documented attribute on every leaf, 6% odd names; quick 1200, thorough 40000) and 'wild' cases (quick 800, thorough 30000: reserved words as types and attribute names, "
         "non-list compose, non-dict context.variable, bad getters, non-Variable arguments, empty Compose/Combine, "
         "getter/dim/type/name keywords); every value applied twice. attr: every index -n-2..n+1 of Combine of 1..4 variables, "
-        "every kind of attribute name on a leaf / Combine / Compose, random get/set/item/call sequences (quick 300, thorough "
-        "8000). tok: single variables and chains of 2..4 different variables x input values x up to 3 rounds with object "
+        "every kind of attribute name on a leaf / Combine / Compose, applications with changes of the attributes in between (dot notation, var_context[a] = x, in-place "
+        "change of a value, deletion) on a flat untyped leaf / typed leaf / Combine / Compose of one and two variables, "
+        "random get/set/vcset/vcdel/mut/item/call sequences (55% of them call-change-call templates; quick 600, thorough "
+        "8000). ctor: Compose/Combine of 1..3 leaves x typed/untyped x 4 attribute sets on object identities, nested "
+        "arguments, random (quick 150, thorough 4000). tok: single variables and chains of 2..4 different variables x input values x up to 3 rounds with object "
         "identities, two aliasing cases, random (quick 300, thorough 8000). Non-trivial: a chain of >= 2 variables whose result "
         "has a compose list, a Combine, an exception; attr: a value or an exception; tok: an object changed in place.")
 CASE_TIMEOUT = 10
@@ -190,6 +250,33 @@ _OPAQUE_PY = {"None": None, "False": False, "0.0": 0.0, "True": True, "1.5": 1.5
 _OPAQUE_REV = {v: k for k, v in OPAQUE.items()}
 
 
+class _Obj:
+    """a user-defined attribute value: a mutable object with attributes of its own, compared by value"""
+
+    def __init__(self, **kw):
+        self.__dict__.update(kw)
+
+    def __eq__(self, other):
+        return type(other) is _Obj and self.__dict__ == other.__dict__
+
+    __hash__ = None
+
+    def __repr__(self):
+        return "_Obj(%s)" % ", ".join("%s=%r" % kv for kv in sorted(self.__dict__.items()))
+
+
+# mutable attribute values that are neither list nor dict ("arbitrary extra attributes"): the code never looks inside an
+# attribute value, so the model holds them as LISTS that start with a tag (the token model gives them an identity like
+# any list): a set, a collections.deque, a user object (tag, then its attribute dictionary).  An OrderedDict is a
+# dictionary (compared by value, like the code's `==` does).
+TAG_SET, TAG_DEQUE, TAG_OBJ = "<set>", "<deque>", "<obj>"
+
+
+def _sort_key(p):
+    import json
+    return json.dumps(p, sort_keys=True)
+
+
 def enc(o):
     if o is None or isinstance(o, (bool, float)):
         r = repr(o)
@@ -204,6 +291,12 @@ def enc(o):
         return {"t": [enc(x) for x in o]}
     if isinstance(o, dict):
         return {"d": {(k if isinstance(k, str) else "<non-string key %r>" % (k,)): enc(v) for k, v in o.items()}}
+    if isinstance(o, (set, frozenset)):
+        return {"s": [x for _, x in sorted({_sort_key(enc(x)): enc(x) for x in o}.items())]}
+    if isinstance(o, collections.deque):
+        return {"dq": [enc(x) for x in o]}
+    if isinstance(o, _Obj):
+        return {"u": {k: enc(v) for k, v in o.__dict__.items()}}
     return {"obj": type(o).__name__}
 
 
@@ -218,7 +311,41 @@ def dec(p):
         return tuple(dec(x) for x in p["t"])
     if "d" in p:
         return {k: dec(v) for k, v in p["d"].items()}
+    if "od" in p:
+        return collections.OrderedDict((k, dec(v)) for k, v in p["od"].items())
+    if "s" in p:
+        return set(dec(x) for x in p["s"])
+    if "dq" in p:
+        return collections.deque(dec(x) for x in p["dq"])
+    if "u" in p:
+        return _Obj(**{k: dec(v) for k, v in p["u"].items()})
     raise ValueError(p)
+
+
+def canon_p(p):
+    """the encoding of the Python value a case literal stands for (an OrderedDict is compared as a dictionary, the
+    elements of a set in a fixed order)"""
+    if isinstance(p, (int, str)):
+        return p
+    if "o" in p:
+        return p
+    if "l" in p:
+        return {"l": [canon_p(x) for x in p["l"]]}
+    if "t" in p:
+        return {"t": [canon_p(x) for x in p["t"]]}
+    if "d" in p or "od" in p:
+        return {"d": {k: canon_p(v) for k, v in p.get("d", p.get("od")).items()}}
+    if "s" in p:
+        return {"s": [x for _, x in sorted({_sort_key(canon_p(x)): canon_p(x) for x in p["s"]}.items())]}
+    if "dq" in p:
+        return {"dq": [canon_p(x) for x in p["dq"]]}
+    if "u" in p:
+        return {"u": {k: canon_p(v) for k, v in p["u"].items()}}
+    return p
+
+
+def canon_kw(kw):
+    return {k: canon_p(v) for k, v in kw.items()}
 
 
 def enc_data(o):
@@ -281,17 +408,24 @@ def norm(v):
     return {"d": d, "c": c}
 
 
+def _canon_val(v):
+    """a value of a case with its context in the form `enc` gives the real objects (OrderedDict as a dictionary, ...)"""
+    return {"d": v["d"], "c": None if v.get("c") is None else canon_p(v["c"])}
+
+
 def _strings(p, acc):
     """all strings of an encoded value (keys and string values)"""
     if isinstance(p, str):
         acc.add(p)
     elif isinstance(p, dict):
-        if "d" in p:
-            for k, v in p["d"].items():
-                acc.add(k)
-                _strings(v, acc)
-        elif "o" not in p:
-            for x in p.get("l", p.get("t", [])):
+        for kk in ("d", "od", "u"):
+            if kk in p:
+                for k, v in p[kk].items():
+                    acc.add(k)
+                    _strings(v, acc)
+                return
+        if "o" not in p:
+            for x in p.get("l", p.get("t", p.get("s", p.get("dq", [])))):
                 _strings(x, acc)
 
 
@@ -322,10 +456,14 @@ def alphabet(case):
         if case["val"].get("c") is not None:
             _strings(case["val"]["c"], acc)
         return sorted(acc)
+    if case.get("kind") == "ctor":
+        for e in case["args"]:
+            _expr_strings(e, acc)
+        return sorted(acc)
     if case.get("kind") == "attr":
         _expr_strings(case["expr"], acc)
         for o in case["ops"]:
-            for k in ("get", "set"):
+            for k in ("get", "set", "vcset", "vcdel", "mut"):
                 if k in o:
                     acc.add(o[k])
             if "v" in o:
@@ -344,7 +482,7 @@ def alphabet(case):
 
 
 def to_model(p, names):
-    """encoded value -> model JSON (dictionaries as slot arrays over names)"""
+    """encoded value -> model JSON (dictionaries as slot arrays over names; sets, deques, user objects as tagged lists)"""
     if isinstance(p, (int, str)):
         return p
     if "o" in p:
@@ -353,8 +491,15 @@ def to_model(p, names):
         return {"l": [to_model(x, names) for x in p["l"]]}
     if "t" in p:
         return {"t": [to_model(x, names) for x in p["t"]]}
-    d = p["d"]
-    return [to_model(d[k], names) if k in d else None for k in names]
+    if "s" in p:
+        return {"l": [TAG_SET] + [to_model(x, names) for x in canon_p(p)["s"]]}
+    if "dq" in p:
+        return {"l": [TAG_DEQUE] + [to_model(x, names) for x in p["dq"]]}
+    if "u" in p:
+        return {"l": [TAG_OBJ, to_model({"d": p["u"]}, names)]}
+    d = p["d"] if "d" in p else p["od"]
+    # a dictionary: only the keys present, as [key number, value], in the order of the alphabet
+    return {"D": [[i, to_model(d[k], names)] for i, k in enumerate(names) if k in d]}
 
 
 def from_model(m, names):
@@ -363,8 +508,19 @@ def from_model(m, names):
     if isinstance(m, (int, str)):
         return m
     if isinstance(m, dict):
+        if "D" in m:
+            if any(i >= len(names) for i, _ in m["D"]):
+                return {"bad-slots": max(i for i, _ in m["D"]) + 1}
+            return {"d": {names[i]: from_model(x, names) for i, x in m["D"]}}
         if "l" in m:
-            return {"l": [from_model(x, names) for x in m["l"]]}
+            l = m["l"]
+            if l and l[0] == TAG_SET:
+                return {"s": [from_model(x, names) for x in l[1:]]}
+            if l and l[0] == TAG_DEQUE:
+                return {"dq": [from_model(x, names) for x in l[1:]]}
+            if len(l) == 2 and l[0] == TAG_OBJ:
+                return {"u": from_model(l[1], names).get("d", {})}
+            return {"l": [from_model(x, names) for x in l]}
         return {"t": [from_model(x, names) for x in m["t"]]}
     if len(m) > len(names):
         return {"bad-slots": len(m)}
@@ -395,9 +551,11 @@ class _NotAVariable:
         return x
 
 
-def build(e, env=None):
+def build(e, env=None, nodes=None, path="v"):
     """construct the real object of an expression (may raise); expressions that carry the same "id" are ONE object
-    (`env` maps ids to the objects built so far): Sequence(v, v), Compose(v, w, v), Sequence(v, Compose(v, w))"""
+    (`env` maps ids to the objects built so far): Sequence(v, v), Compose(v, w, v), Sequence(v, Compose(v, w)).
+    `nodes` (a list) receives (path, object, encoding of its var_context right after ITS construction) for every
+    Variable constructed, arguments before the Compose/Combine they are given to"""
     from lena.variables import Variable, Compose, Combine
     k = e["k"]
     if k == "other":
@@ -415,11 +573,28 @@ def build(e, env=None):
             getter = _getter(g)
         obj = Variable(dec(e["name"]), getter, type=dec(e["type"]), **kw)
     else:
-        args = [build(a, env) for a in e["args"]]
+        args = [build(a, env, nodes, "%s.%d" % (path, i)) for i, a in enumerate(e["args"])]
         obj = (Compose if k == "compose" else Combine)(*args, **kw)
     if env is not None and e.get("id") is not None:
         env[e["id"]] = obj
+    if nodes is not None:
+        nodes.append((path, obj, enc(obj.var_context)))
     return obj
+
+
+def _nodes_changed(nodes, top=()):
+    """[path, var_context as constructed, var_context now] of the first constructed Variable (not one of `top`) whose
+    var_context differs from what it was right after its construction, else None"""
+    for path, obj, snap in nodes:
+        if any(obj is t for t in top):
+            continue
+        try:
+            now = enc(obj.var_context)
+        except Exception as e:
+            now = {"e": exc_name(e)}
+        if now != snap:
+            return [path, snap, now]
+    return None
 
 
 def _getter(g):
@@ -460,33 +635,133 @@ def _too_big(o, budget=None):
     return False
 
 
+PROBE = "probe\u2620"
+
+
+def _scramble(o, seen=None):
+    """change, in place, every mutable object reachable from `o` (a context some application returned): what a later
+    element of the analysis is free to do with the context of ITS value.  Nothing the variable owns may notice."""
+    seen = set() if seen is None else seen
+    stack = [o]
+    while stack:
+        x = stack.pop()
+        if isinstance(x, tuple):
+            stack.extend(x)
+            continue
+        if id(x) in seen:
+            continue
+        if isinstance(x, dict):
+            seen.add(id(x))
+            stack.extend(list(x.values()))
+            x[PROBE] = 1
+        elif isinstance(x, list):
+            seen.add(id(x))
+            stack.extend(x)
+            x.append(PROBE)
+        elif isinstance(x, set):
+            seen.add(id(x))
+            x.add(PROBE)
+        elif isinstance(x, collections.deque):
+            seen.add(id(x))
+            stack.extend(list(x))
+            x.append(PROBE)
+        elif isinstance(x, _Obj):
+            seen.add(id(x))
+            stack.extend(list(x.__dict__.values()))
+            setattr(x, "probe", 1)
+
+
+def _enc_result(r):
+    if _too_big(r):
+        return {"bad": "the result has more than %d nodes" % _SIZE_LIMIT}
+    if isinstance(r, tuple) and len(r) == 2:
+        return {"d": enc_data(r[0]), "c": enc(r[1])}
+    return {"bad": enc(r)}
+
+
+class _Watch:
+    """the var_contexts of a list of Variable objects, watched for changes of their VALUE (compared with deep copies;
+    encoded only when a change has to be reported)"""
+
+    def __init__(self, objs):
+        self.objs = objs
+        self.snap = [copy.deepcopy(o.var_context) for o in objs]
+
+    def changed(self):
+        try:
+            return any(o.var_context != s for o, s in zip(self.objs, self.snap))
+        except Exception:
+            return True
+
+    def report(self):
+        """[var_context before, var_context now] of the first variable that changed"""
+        for o, s in zip(self.objs, self.snap):
+            a, b = enc(s), enc(o.var_context)
+            if a != b:
+                return [a, b]
+        return [None, None]
+
+
 def _apply(fn, vals, watch):
-    """apply fn twice to fresh copies of every value; record the result and the input's context afterwards.
-    `watch()` is the current encoding of the variables' var_contexts: the first time it differs from its initial
-    value the case is abandoned (the oracle reports the changed var_context) -- a variable that shares its
-    var_context with the contexts it produces can grow exponentially under repeated application."""
+    """apply fn twice to fresh copies of every value; record the result and the input's context afterwards.  After a
+    result has been recorded, every mutable object of the returned context is changed in place (`_scramble`).
+    `watch` (_Watch) holds the variables' var_contexts: the first time one differs from its initial value the case is
+    abandoned (the oracle reports the changed var_context) -- a variable that shares its var_context with the contexts
+    it produces can grow exponentially under repeated application.
+    Returns (outs, probe): probe = [var_context before, after] if it was the change of a RETURNED context that changed
+    a var_context."""
     outs = []
-    before = watch()
     for v in vals:
         reps = []
         outs.append(reps)
         for _ in range(2):
             x = _mkval(v)
+            r = None
             try:
                 r = fn(x)
-                if _too_big(r):
-                    reps.append({"bad": "the result has more than %d nodes" % _SIZE_LIMIT})
-                    return outs
-                o = {"d": enc_data(r[0]), "c": enc(r[1])} if (isinstance(r, tuple) and len(r) == 2) else {"bad": enc(r)}
+                o = _enc_result(r)
             except Exception as e:
                 o = {"e": exc_name(e)}
             if _has_ctx(x):
                 o["in_after"] = enc(x[1])
             reps.append(o)
             # a variable that keeps state between calls can grow exponentially: stop at the first sign
-            if watch() != before or (len(reps) == 2 and _strip(reps[0]) != _strip(reps[1])):
-                return outs
-    return outs
+            if "bad" in o or watch.changed() or (len(reps) == 2 and _strip(reps[0]) != _strip(reps[1])):
+                return outs, None
+            if isinstance(r, tuple) and len(r) == 2:
+                _scramble(r[1])
+                if watch.changed():
+                    return outs, watch.report()
+    return outs, None
+
+
+def _flow(seq_args, vals, watch):
+    """lena.core.Sequence(*seq_args).run(flow) on a flow of SEVERAL values (every value of the case twice, fresh
+    copies), consumed one value at a time; every result is recorded when it arrives and its context is then changed in
+    place (`_scramble`) before the next value is asked for.  Returns the list of results (an exception ends the flow)."""
+    import lena.core
+    out = []
+    try:
+        seq = lena.core.Sequence(*seq_args)
+        flow = [_mkval(v) for v in vals for _ in range(2)]
+        for r in seq.run(iter(flow)):
+            o = _enc_result(r)
+            out.append(o)
+            if "bad" in o or len(out) > len(flow):
+                break
+            if isinstance(r, tuple) and len(r) == 2:
+                _scramble(r[1])
+            if watch.changed():
+                out.append({"vc_changed": watch.report()})
+                break
+        else:
+            if len(out) == len(flow) and vals:
+                # the same Sequence object run a second time, on a flow of one value
+                for r in seq.run([_mkval(vals[0])]):
+                    out.append(_enc_result(r))
+    except Exception as e:
+        out.append({"e": exc_name(e)})
+    return out
 
 
 def _seq_fn(vars_):
@@ -503,9 +778,10 @@ def _seq_fn(vars_):
 def _chain_run_impl(case):
     res = {"fx": detect_fx(), "nk": detect_nk()}
     # the variables in a Sequence
+    nodes = []
     try:
         env = {}
-        vars_ = [build(e, env) for e in case["chain"]]
+        vars_ = [build(e, env, nodes, "v%d" % i) for i, e in enumerate(case["chain"])]
     except Exception as e:
         res["S"] = {"e": exc_name(e), "phase": "init"}
         vars_ = None
@@ -517,14 +793,23 @@ def _chain_run_impl(case):
                 names.append(enc(v.name))
             except Exception as e:
                 names.append({"e": exc_name(e)})
-        outs = _apply(_seq_fn(vars_), case["vals"], lambda: [enc(v.var_context) for v in vars_])
+        watch = _Watch([o for _, o, _ in nodes])
+        outs, probe = _apply(_seq_fn(vars_), case["vals"], watch)
         res["S"] = {"vcs": before, "outs": outs, "vcs_after": [enc(v.var_context) for v in vars_], "names": names}
+        if probe:
+            res["S"]["probe"] = probe
+        ch = _nodes_changed(nodes)
+        if ch:
+            res["S"]["node_changed"] = ch
+        elif not probe and res["S"]["vcs_after"] == before:
+            res["S"]["flow"] = _flow(vars_, case["vals"], watch)
     # Compose of (fresh copies of) the same variables
     cargs, args_before, args_init = None, None, None
+    nodes = []
     try:
         from lena.variables import Compose
         env = {}
-        cargs = [build(e, env) for e in case["chain"]]
+        cargs = [build(e, env, nodes, "v%d" % i) for i, e in enumerate(case["chain"])]
         args_before = [enc(a.var_context) for a in cargs]
         comp = Compose(*cargs)
         args_init = [enc(a.var_context) for a in cargs]
@@ -537,9 +822,18 @@ def _chain_run_impl(case):
             nm = enc(comp.name)
         except Exception as e:
             nm = {"e": exc_name(e)}
-        outs = _apply(comp, case["vals"], lambda: enc(comp.var_context))
+        watch = _Watch([comp] + [o for _, o, _ in nodes])
+        outs, probe = _apply(comp, case["vals"], watch)
         res["C"] = {"vcs": [before], "outs": outs, "vcs_after": [enc(comp.var_context)], "names": [nm],
                     "args": [args_before, args_init, [enc(a.var_context) for a in cargs]]}
+        if probe:
+            res["C"]["probe"] = probe
+        ch = _nodes_changed(nodes)
+        if ch:
+            res["C"]["node_changed"] = ch
+        elif not probe and res["C"]["vcs_after"] == [before]:
+            # the Compose as the only element of a Sequence, on a flow
+            res["C"]["flow"] = _flow([comp], case["vals"], watch)
     return res
 
 
@@ -586,12 +880,9 @@ def _chain_model_requests(case):
     vals = [{"d": data_to_model(v["d"], names), "c": None if v.get("c") is None else to_model(v["c"], names)}
             for v in case["vals"]]
     chain = [expr_to_model(e, names) for e in case["chain"]]
-    fx = detect_fx()
-    return [
-        {"op": "run", "names": names, "fx": fx, "nk": detect_nk(), "spec": True, "exprs": chain, "vals": vals},
-        {"op": "run", "names": names, "fx": fx, "nk": detect_nk(), "vals": vals,
-         "exprs": [{"k": "compose", "args": chain, "kw": [None] * len(names)}]},
-    ]
+    # one request, two replies: "S" the variables one after the other (with the specification side), "C" their Compose
+    return [{"op": "run", "names": names, "fx": detect_fx(), "nk": detect_nk(), "spec": True, "both": True, "flow": True,
+             "exprs": chain, "vals": vals}]
 
 
 def _model_out(m, names):
@@ -606,8 +897,10 @@ def _strip(o):
 
 def _chain_compare(case, res, replies):
     names = alphabet(case)
-    for which, m in zip(("S", "C"), replies):
-        r = res[which]
+    if "err" in replies[0]:
+        return f"model driver error: {replies[0]['err']}"
+    for which in ("S", "C"):
+        r, m = res[which], replies[0][which]
         if "err" in m:
             return f"model driver error ({which}): {m['err']}"
         if "e" in m or "e" in r:
@@ -625,6 +918,17 @@ def _chain_compare(case, res, replies):
             mo = _model_out(mo, names)
             if _strip(reps[0]) != mo:
                 return f"{which}: value {case['vals'][i]}: impl {_strip(reps[0])} vs model {mo}"
+        if "flow" in r and "flow" in m:
+            # Sequence(...).run(flow) on the flow that holds every value twice vs Lean `seqRun`; the driver reports a
+            # result that equals `outs[i]` (compared with the implementation above) as the number i
+            for k, mo in enumerate(m["flow"]):
+                g = r["flow"][k] if k < len(r["flow"]) else None
+                if isinstance(mo, int):
+                    if g != _strip(r["outs"][mo][0]):
+                        return (f"{which}: flow, value number {k}: impl {g} vs model seqRun = the result for the value "
+                                f"alone, {_strip(r['outs'][mo][0])}")
+                elif g != _model_out(mo, names):
+                    return f"{which}: flow, value number {k}: impl {g} vs model seqRun {_model_out(mo, names)}"
     return None
 
 
@@ -830,11 +1134,55 @@ def _flat_leaf_chain(chain):
     return out
 
 
+def _flow_check(which, r, vals):
+    """`Sequence(...).run(flow)` on a flow that holds every value of the case twice: result number k must be what the
+    same value gives when it is applied alone (repeated application to equal values gives equal results; with
+    sentence 1, which is evaluated on the single applications: Compose and Sequence agree on every value of a flow)"""
+    exp = []
+    for reps in r["outs"]:
+        if not reps:
+            break
+        o = _strip(reps[0])
+        if "e" in o or "bad" in o:
+            exp.append(o)
+            break
+        exp += [o, o]
+    else:
+        if exp and r["outs"] and len(exp) == 2 * len(r["outs"]):
+            exp.append(exp[0])      # the second run of the same Sequence object, on the first value
+    flow = r["flow"]
+    for k, w in enumerate(exp):
+        v = vals[k // 2] if k // 2 < len(vals) else vals[0]
+        if k >= len(flow):
+            return f"{which} on a flow of {len(exp)} values yields only {len(flow)} results"
+        g = flow[k]
+        if "vc_changed" in g:
+            a, b = g["vc_changed"]
+            return (f"{which} on a flow: after value number {k} (its context was then changed by the consumer) the "
+                    f"var_context of a variable changed: {a} -> {b}")
+        if "e" in w:
+            if g.get("e") != w["e"]:
+                return f"{which} on a flow: value number {k} ({v}) gives {g}, applied alone it raises {w['e']}"
+            return None
+        if "bad" in w:
+            return None
+        if g != w:
+            return (f"{which} on a flow of several values: value number {k} ({v}) gives {str(g)[:600]}, the same value "
+                    f"applied alone gives {str(w)[:600]}")
+    if len(flow) > len(exp):
+        g = flow[len(exp)]
+        if "vc_changed" in g:
+            a, b = g["vc_changed"]
+            return f"{which} on a flow: the var_context of a variable changed: {a} -> {b}"
+        return f"{which} on a flow of {len(exp)} values yields more results: {str(g)[:300]}"
+    return None
+
+
 def _chain_oracle(case, res):
     wf = spec_wf(case)            # inside the hypotheses of the theorems
     scope = spec_scope(case)      # inside the property's quantifier (attributes may be named like types)
     S, C = res["S"], res["C"]
-    chain, vals = case["chain"], [norm(v) for v in case["vals"]]     # data / context by the Python reference of _has_context
+    chain, vals = case["chain"], [_canon_val(norm(v)) for v in case["vals"]]     # data / context by the Python reference of _has_context
     if scope:
         for which, r in (("Sequence", S), ("Compose", C)):
             if "e" in r:
@@ -849,6 +1197,14 @@ def _chain_oracle(case, res):
             when = "constructing" if r["args"][0] != r["args"][1] else "applying"
             return (f"{when} Compose(v1..vn) changed the var_context of one of the variables v1..vn: "
                     f"{r['args'][0]} -> {r['args'][1]} -> {r['args'][2]}")
+        if r.get("node_changed"):
+            path, a, b = r["node_changed"]
+            return (f"{which}: constructing or applying the variables changed the var_context of the variable at {path} "
+                    f"(an argument of a Compose/Combine keeps its own description): {a} -> {b}")
+        if r.get("probe"):
+            a, b = r["probe"]
+            return (f"{which}: changing the context an application RETURNED changed the var_context of a variable (the "
+                    f"variable shares mutable objects with the contexts it produces): {a} -> {b}")
         last_vc, last_name = r["vcs"][-1]["d"], r["names"][-1]
         for v, reps in zip(vals, r["outs"]):
             if any("bad" in o and isinstance(o["bad"], str) for o in reps):
@@ -894,13 +1250,20 @@ def _chain_oracle(case, res):
                     elif var.get(k) != w:
                         return (f"{which} on {v}: attribute {k!r} of the resulting variable is {w} but "
                                 f"context.variable has {var.get(k)}")
+    # ---- a flow of several values through lena.core.Sequence: every value as if it were applied alone --------------
+    for which, r in (("Sequence", S), ("Compose as the element of a Sequence", C)):
+        if "e" in r or "flow" not in r:
+            continue
+        msg = _flow_check(which, r, vals)
+        if msg:
+            return msg
     if "e" in S or "e" in C:
         return None
     # ---- leaf variables carry the name and attributes they were given ----------------------------------------
     if wf:
         for e, vc in zip(chain, S["vcs"]):
             if e["k"] == "var":
-                want = dict(e["kw"], name=e["name"])
+                want = canon_kw(dict(e["kw"], name=e["name"]))
                 got = vc["d"]
                 for k, w in want.items():
                     if got.get(k) != w:
@@ -909,7 +1272,7 @@ def _chain_oracle(case, res):
     if wf:
         for e, vc, nm in zip(chain, S["vcs"], S["names"]):
             if e["k"] in ("compose", "combine"):
-                for k, w in e["kw"].items():
+                for k, w in canon_kw(e["kw"]).items():
                     if k == "name":
                         if e["k"] == "combine" and nm != w:
                             return f"Combine(..., name={w!r}) has the name {nm!r}"
@@ -936,7 +1299,7 @@ def _chain_oracle(case, res):
                 for which, o in (("Sequence", rs[0]), ("Compose", rc[0])):
                     var = _var_of(o)
                     for l in leaves:
-                        want = {"d": dict(l["kw"], name=l["name"])}
+                        want = {"d": canon_kw(dict(l["kw"], name=l["name"]))}
                         if var.get(l["type"]) != want:
                             return (f"{which} on {v}: attributes of the variable of type {l['type']!r} are "
                                     f"{var.get(l['type'])}, expected {want}")
@@ -957,6 +1320,7 @@ def _chain_oracle(case, res):
 ATTR = ["a", "b", "u", "latex_name", "unit", "range", "x_1", "Q2"]     # incl. the documented attribute names
 TYPES = ["ta", "tb", "tc", "td", "te", "tf", "tg"]
 PRETYPES = ["p0", "p1", "p2"]
+NAMES = ["", "x y", "v1", "0", "_", "E_{kin}"]     # names a variable / a Combine may be given, besides v<i>
 
 
 def _leaf(i, ty, kw=None):
@@ -984,19 +1348,39 @@ def _pre_vals(shared="ta"):
     ]
 
 
+def _rand_hashable(rng):
+    r = rng.random()
+    if r < 0.5:
+        return rng.randint(0, 3)
+    if r < 0.8:
+        return rng.choice(["mu", "e", "s"])
+    return {"t": [rng.randint(0, 3) for _ in range(rng.randint(0, 2))]}
+
+
 def _rand_value(rng, depth=0, keys=ATTR):
     r = rng.random()
-    if r < 0.3:
+    if r < 0.27:
         return rng.randint(0, 3)
-    if r < 0.42:
+    if r < 0.38:
         # None, booleans, floats (also nan/inf), kept apart from ints
         return {"o": rng.choice(list(OPAQUE))}
-    if r < 0.58:
+    if r < 0.52:
         return rng.choice(["", "s", "mm", "e^+"])
-    if r < 0.7:
+    if r < 0.64:
         return {"l": [_rand_value(rng, depth + 1, keys) for _ in range(rng.randint(0, 2))]}
-    if r < 0.8:
+    if r < 0.72:
         return {"t": [_rand_value(rng, depth + 1, keys) for _ in range(rng.randint(0, 2))]}
+    if r < 0.84:
+        # mutable values that are neither list nor dict: a set, a deque, an OrderedDict, a user object
+        q = rng.random()
+        if q < 0.4:
+            return canon_p({"s": [_rand_hashable(rng) for _ in range(rng.randint(0, 3))]})
+        if q < 0.6:
+            return {"dq": [_rand_value(rng, depth + 1, keys) for _ in range(rng.randint(0, 2))]}
+        if depth < 2:
+            kk = "od" if q < 0.8 else "u"
+            return {kk: {rng.choice(keys): _rand_value(rng, depth + 1, keys) for _ in range(rng.randint(0, 2))}}
+        return {"s": []}
     if depth < 2:
         return {"d": {rng.choice(keys): _rand_value(rng, depth + 1, keys) for _ in range(rng.randint(0, 2))}}
     return 1
@@ -1040,7 +1424,11 @@ class _Gen:
         if rng.random() < 0.05:
             # "arbitrary extra attributes": one that happens to be called like a type (notes/C14_defect_3.md)
             kw[rng.choice(TYPES[:3] + PRETYPES)] = _rand_value(rng)
-        return dict(_leaf(self.n, ty, kw), getter=_rand_getter(rng, self.n))
+        l = dict(_leaf(self.n, ty, kw), getter=_rand_getter(rng, self.n))
+        if rng.random() < 0.06:
+            # names are arbitrary strings: empty, not an identifier, equal to another variable's
+            l["name"] = rng.choice(NAMES)
+        return l
 
     def expr(self, types, depth=0):
         rng = self.rng
@@ -1051,8 +1439,8 @@ class _Gen:
         if r < 0.8:
             return {"k": "compose", "args": args, "kw": _rand_kw(rng, pmax=1) if rng.random() < 0.3 else {}}
         kw = _rand_kw(rng, pmax=1) if rng.random() < 0.3 else {}
-        if rng.random() < 0.3:
-            kw["name"] = rng.choice(["xy", "c"])
+        if rng.random() < 0.35:
+            kw["name"] = rng.choice(["xy", "c"] + NAMES)
         if rng.random() < 0.3:
             kw["type"] = rng.choice(types)
         return {"k": "combine", "args": args, "kw": kw}
@@ -1161,7 +1549,8 @@ def _exhaustive_cases(maxlen):
     for n in range(1, 5):
         for pat in itertools.product([False, True], repeat=n):
             args = [_leaf(10 + i, TYPES[i] if t else "", {"u": i} if i % 2 else {}) for i, t in enumerate(pat)]
-            for kw in ({}, {"name": "xy"}, {"type": "tg"}, {"name": "xy", "type": "tg", "a": {"l": [0, 1]}}):
+            for kw in ({}, {"name": "xy"}, {"type": "tg"}, {"name": "xy", "type": "tg", "a": {"l": [0, 1]}}, {"name": ""},
+                       {"name": "", "a": 0, "u": ""}):
                 comb = {"k": "combine", "args": args, "kw": kw}
                 cases.append({"chain": [comb], "vals": vals2})
                 if n <= 3:
@@ -1184,6 +1573,25 @@ def _exhaustive_cases(maxlen):
         chain = [_leaf(i + 1, ty, doc[i % 3]) for i, ty in enumerate(tys)]
         cases.append({"chain": chain, "vals": vals2})
         cases.append({"chain": [{"k": "compose", "args": chain, "kw": {"latex_name": "c"}}, _leaf(9, "tg", doc[1])], "vals": vals2})
+    # attribute values that are mutable but neither list nor dict (a set, a deque, an OrderedDict, a user object), falsy
+    # values and odd names
+    odd = [{"triggers": {"s": ["e", "mu"]}, "cuts": {"od": {"min": 0, "max": 10}}},
+           {"history": {"dq": [1, {"l": [2]}]}, "axis": {"u": {"unit": "mm", "range": {"l": [0, 1]}}}},
+           {"a": 0, "b": "", "u": {"l": []}, "unit": {"d": {}}, "range": {"t": []}, "x_1": {"s": []}, "Q2": {"o": "False"}}]
+    for tys in (("",), ("ta",), ("ta", "tb"), ("", "tb", "")):
+        chain = [_leaf(i + 1, ty, odd[i % 3]) for i, ty in enumerate(tys)]
+        cases.append({"chain": chain, "vals": vals2})
+        cases.append({"chain": [{"k": "combine", "args": chain, "kw": {"flags": odd[0]["triggers"]}}], "vals": vals2})
+    for nm in NAMES:
+        cases.append({"chain": [dict(_leaf(1, "ta"), name=nm), dict(_leaf(2, ""), name=nm), _leaf(3, "tb")], "vals": vals2})
+        cases.append({"chain": [{"k": "combine", "args": [dict(_leaf(1, "ta"), name=nm), _leaf(2, "")], "kw": {}}], "vals": vals2})
+    # a Compose of ONE variable with attributes of its own, alone and in chains (the variable keeps its description)
+    for ty in ("", "ta"):
+        x = _leaf(1, ty, {"a": 1})
+        c1 = {"k": "compose", "args": [x], "kw": {"unit": "mm", "latex_name": "x_{mm}"}}
+        for chain in ([c1], [_leaf(2, "tb"), c1], [c1, _leaf(2, "tb")], [dict(x, id="x"), {"k": "compose", "args": [dict(x, id="x")],
+                      "kw": {"unit": "mm"}}], [{"k": "combine", "args": [c1, x], "kw": {"unit": "cm"}}]):
+            cases.append({"chain": chain, "vals": vals2})
     # one Variable object used twice: Sequence(v, v), Compose(v, w, v), Sequence(v, Compose(v, w)), Combine(v, v)
     for ty in ("", "ta"):
         v = dict(_leaf(1, ty, {"a": {"l": [1]}}), id="v")
@@ -1231,12 +1639,14 @@ def gen_cases(ctx):
     yield from _exhaustive_cases(3)
     yield from _attr_exhaustive()
     yield from _tok_exhaustive()
+    yield from _ctor_exhaustive()
     g = _Gen(rng)
-    n_chain, n_wild, n_attr, n_tok = (700, 800, 300, 300) if quick else (40000, 30000, 8000, 8000)
+    n_chain, n_wild, n_attr, n_tok, n_ctor = (1200, 800, 600, 300, 150) if quick else (40000, 30000, 8000, 8000, 4000)
     # interleaved, so that a prefix of the thorough stream is a sample of all parts
-    total = n_chain + n_wild + n_attr + n_tok
+    total = n_chain + n_wild + n_attr + n_tok + n_ctor
     attr = _attr_cases(rng, n_attr)
     tok = _tok_cases(rng, n_tok)
+    ctor = _ctor_cases(rng, n_ctor)
     for i in range(total):
         r = rng.random() * total
         if r < n_chain:
@@ -1257,6 +1667,10 @@ def gen_cases(ctx):
             yield _wild_case(rng)
         elif r < n_chain + n_wild + n_attr:
             c = next(attr, None)
+            if c is not None:
+                yield c
+        elif r >= total - n_ctor:
+            c = next(ctor, None)
             if c is not None:
                 yield c
         else:
@@ -1320,6 +1734,11 @@ KNOWN_CLASH_SIGNATURE = "attribute named like a type: Compose and Sequence diffe
 _CLASH_FAILURES = ("Compose and Sequence of the same", "sub-context of the earlier type", "attributes of the variable of type")
 
 
+_ATTR_SIGS = ("must reach the context", "when it is applied", "shares mutable objects", "the application changed",
+              "changed the var_context of its argument", "private names", "missing attribute", "was constructed with",
+              "Combine of", "raised")
+
+
 def signature(case, failure):
     """one report per kind of failure (the text before the first colon, without the variant's name); every failure of a
     case in which an attribute is named like a type is the finding of notes/C14_defect_3.md"""
@@ -1328,7 +1747,12 @@ def signature(case, failure):
     if _kind(case) == "tok":
         return "tok|" + (failure or "").split(":", 1)[-1].strip()[:60].split("tokens")[0]
     if _kind(case) == "attr":
+        for w in _ATTR_SIGS:
+            if w in (failure or ""):
+                return "attr|" + w
         return "attr|" + (failure or "").split(":", 1)[-1].strip()[:50]
+    if _kind(case) == "ctor":
+        return "ctor|" + (failure or "")[:40]
     head = (failure or "").split(":")[0]
     for w in ("Sequence ", "Compose "):
         if head.startswith(w):
@@ -1380,11 +1804,41 @@ def _chain_shrink(case):
 _REAL_ATTRS = ("getter", "var_context")      # found by normal lookup, never reach __getattr__
 
 
+def mutated(p):
+    """the encoded value after the in-place change `_mutate` makes to the object (None: the value is immutable)"""
+    if isinstance(p, dict):
+        if "l" in p:
+            return {"l": p["l"] + [7]}
+        if "dq" in p:
+            return {"dq": p["dq"] + [7]}
+        if "s" in p:
+            return canon_p({"s": [x for x in p["s"] if x != 7] + [7]})
+        for kk in ("d", "od", "u"):
+            if kk in p:
+                return {kk: dict(p[kk], m=7)}
+    return None
+
+
+def _mutate(o):
+    if isinstance(o, list):
+        o.append(7)
+    elif isinstance(o, collections.deque):
+        o.append(7)
+    elif isinstance(o, set):
+        o.add(7)
+    elif isinstance(o, dict):
+        o["m"] = 7
+    elif isinstance(o, _Obj):
+        o.m = 7
+
+
 def _attr_run_impl(case):
+    nodes = []
     try:
-        v = build(case["expr"])
+        v = build(case["expr"], None, nodes)
     except Exception as e:
         return {"e": exc_name(e), "phase": "init"}
+    objs = [o for _, o, _ in nodes]
     out = []
     for o in case["ops"]:
         try:
@@ -1393,33 +1847,62 @@ def _attr_run_impl(case):
             elif "set" in o:
                 setattr(v, o["set"], dec(o["v"]))
                 out.append({"r": None})
+            elif "vcset" in o:
+                # the documented public dictionary of the variable's attributes
+                v.var_context[o["vcset"]] = dec(o["v"])
+                out.append({"r": None})
+            elif "vcdel" in o:
+                v.var_context.pop(o["vcdel"], None)
+                out.append({"r": None})
+            elif "mut" in o:
+                # an attribute value changed in place (var.range.append(...))
+                _mutate(v.var_context.get(o["mut"]))
+                out.append({"r": None})
             elif "item" in o:
                 w = v[o["item"]]
                 ks = [k for k, u in enumerate(v._vars) if u is w]
                 out.append({"r": ks[0] if ks else -1, "vc": enc(w.var_context)})
             elif "call" in o:
+                vcb = enc(v.var_context)
+                watch = _Watch(objs)
                 r = v(_mkval(o["call"]))
-                out.append({"d": enc_data(r[0]), "c": enc(r[1])})
+                res = {"d": enc_data(r[0]), "c": enc(r[1]), "vcb": vcb}
+                if watch.changed():
+                    res["call_changed"] = watch.report()
+                else:
+                    # what a later element may do with the context of its value must not reach the variable
+                    _scramble(r[1])
+                    if watch.changed():
+                        res["probe"] = watch.report()
+                out.append(res)
+                if "probe" in res or "call_changed" in res:
+                    break
             elif "vcn" in o:
                 # Python reference of notes/C14_defect_2.patch: the var_context as constructed, `name` = the keyword
                 e = case["expr"]
                 ref = enc(build(e).var_context)
                 if e["k"] == "compose" and "name" in e["kw"]:
-                    ref["d"]["name"] = e["kw"]["name"]
+                    ref["d"]["name"] = canon_p(e["kw"]["name"])
                 out.append({"vc": ref})
             else:
                 out.append({"vc": enc(v.var_context)})
         except Exception as e:
             out.append({"e": exc_name(e)})
-    return {"r": out}
+    res = {"r": out}
+    ch = _nodes_changed(nodes, top=[v])
+    if ch:
+        res["node_changed"] = ch
+    return res
 
 
 def _attr_model_requests(case):
     names = alphabet(case)
     ops = []
     for o in case["ops"]:
-        if "set" in o:
-            ops.append({"set": o["set"], "v": to_model(o["v"], names)})
+        if "set" in o or "vcset" in o or "mut" in o:
+            # `var_context[k] = x` is what __setattr__ does; an in-place change of an attribute value is, on values,
+            # the assignment of the changed value
+            ops.append({"set": o.get("set", o.get("vcset", o.get("mut"))), "v": to_model(o["v"], names)})
         elif "call" in o:
             c = o["call"]
             ops.append({"call": {"d": data_to_model(c["d"], names),
@@ -1442,6 +1925,7 @@ def _attr_compare(case, res, replies):
     for i, (a, b) in enumerate(zip(res["r"], m["r"])):
         if "err" in b:
             return f"model driver error at op {i}: {b['err']}"
+        a = {k: w for k, w in a.items() if k not in ("vcb", "probe", "call_changed")}
         b = dict(b)
         for k in ("vc", "c"):
             if k in b:
@@ -1455,17 +1939,41 @@ def _attr_compare(case, res, replies):
     return None
 
 
+def _attr_types(case):
+    """every type string of an attr case (of the expression and of the values it is applied to)"""
+    ts = set()
+    for e in _all_exprs(case["expr"]):
+        if e["k"] == "var" and isinstance(e["type"], str):
+            ts.add(e["type"])
+        elif e["k"] == "combine" and isinstance(e["kw"].get("type"), str):
+            ts.add(e["kw"]["type"])
+    for o in case["ops"]:
+        if "call" in o:
+            ts |= set(t for t in _hist_of(norm(o["call"])["c"]) if isinstance(t, str))
+    return ts
+
+
 def _attr_oracle(case, res):
-    """__getattr__/__setattr__/__getitem__ against their documentation, from the specification alone."""
+    """__getattr__/__setattr__/__getitem__ against their documentation, from the specification alone; an application
+    gives context.variable the attributes the variable has at that moment (however they were set), and shares nothing
+    with the variable."""
     if "e" in res:
         return None
+    if res.get("node_changed"):
+        path, a, b = res["node_changed"]
+        return (f"using the variable changed the var_context of its argument at {path} (an argument of a Compose/Combine "
+                f"keeps its own description): {a} -> {b}")
     e = case["expr"]
+    types = _attr_types(case)
     latest = {}
     for i, (o, r) in enumerate(zip(case["ops"], res["r"])):
-        if "set" in o:
+        if "set" in o or "vcset" in o or "mut" in o:
+            a = o.get("set", o.get("vcset", o.get("mut")))
             if "e" in r:
-                return f"op {i}: setting the attribute {o['set']!r} raised {r['e']}"
-            latest[o["set"]] = o["v"]
+                return f"op {i}: setting the attribute {a!r} raised {r['e']}"
+            latest[a] = canon_p(o["v"])
+        elif "vcdel" in o:
+            latest.pop(o["vcdel"], None)
         elif "get" in o:
             a = o["get"]
             if a.startswith("_"):
@@ -1477,11 +1985,13 @@ def _attr_oracle(case, res):
             elif a == "zz":
                 if r.get("e") != "LenaAttributeError":
                     return f"op {i}: missing attribute var.zz gives {r}, documented: LenaAttributeError"
+            elif any("vcdel" in q for q in case["ops"][:i]):
+                pass
             elif e["k"] == "var" and a == "name" and e["type"] != "name":
-                if r.get("r") != e["name"]:
+                if r.get("r") != canon_p(e["name"]):
                     return f"op {i}: var.name is {r}, the variable was constructed with name {e['name']!r}"
             elif e["k"] == "var" and a in e["kw"] and a != e["type"]:
-                if r.get("r") != e["kw"][a]:
+                if r.get("r") != canon_p(e["kw"][a]):
                     return f"op {i}: var.{a} is {r}, the variable was constructed with {a}={e['kw'][a]}"
         elif "item" in o:
             if e["k"] == "combine":
@@ -1498,6 +2008,11 @@ def _attr_oracle(case, res):
         elif "call" in o:
             if "e" in r:
                 continue
+            if r.get("call_changed"):
+                return f"op {i}: the application changed a var_context: {r['call_changed'][0]} -> {r['call_changed'][1]}"
+            if r.get("probe"):
+                return (f"op {i}: changing the context the application returned changed a var_context (the variable shares "
+                        f"mutable objects with the contexts it produces): {r['probe'][0]} -> {r['probe'][1]}")
             var = _var_of(r)
             if var is None:
                 return f"op {i}: no dictionary context.variable in {r}"
@@ -1505,7 +2020,41 @@ def _attr_oracle(case, res):
                 if a != "compose" and var.get(a) != x:
                     return (f"op {i}: after var.{a} = {x} the attribute must reach the context, "
                             f"context.variable[{a!r}] is {var.get(a)}")
+            # context.variable carries the attributes the variable has when it is applied
+            vcb = r.get("vcb", {}).get("d", {})
+            for a, x in vcb.items():
+                if a != "compose" and a not in types and var.get(a) != x:
+                    return (f"op {i}: the variable's attribute {a!r} is {x} when it is applied, "
+                            f"context.variable[{a!r}] is {var.get(a)}")
     return None
+
+
+def _known_attrs(e):
+    """the attribute values of a freshly constructed variable that follow from the constructor call alone"""
+    if e["k"] == "var":
+        return {k: canon_p(v) for k, v in e["kw"].items() if k != e["type"]}
+    return {k: canon_p(v) for k, v in e["kw"].items() if k not in ("name", "type", "dim", "combine", "compose", "getter")}
+
+
+def _rand_mod(rng, known):
+    """a change of the variable's attributes between two applications: var.a = x, var.var_context[a] = x, an in-place
+    change of an attribute value, del var.var_context[a]; `known` (attribute -> encoded value) is updated"""
+    pool = ["a", "b", "u", "unit", "range", "latex_name"]
+    q = rng.random()
+    muts = [k for k, w in known.items() if mutated(w) is not None]
+    if q < 0.3 and muts:
+        k = rng.choice(sorted(muts))
+        known[k] = mutated(known[k])
+        return {"mut": k, "v": known[k]}
+    dels = sorted(k for k in known if k != "name")      # without `name` every error message of __getattr__ recurses
+    if q < 0.4 and dels:
+        k = rng.choice(dels)
+        del known[k]
+        return {"vcdel": k}
+    k = rng.choice(pool + (["name", "dim", "ta"] if rng.random() < 0.15 else []))
+    x = _rand_value(rng) if rng.random() < 0.6 else rng.choice([{"l": [0, 100]}, {"s": ["e", "mu"]}, {"d": {"min": 0}}, {"u": {"a": {"l": [1]}}}])
+    known[k] = canon_p(x)
+    return {("set" if rng.random() < 0.5 else "vcset"): k, "v": x}
 
 
 def _attr_cases(rng, n):
@@ -1516,30 +2065,47 @@ def _attr_cases(rng, n):
         r = rng.random()
         if r < 0.45:
             e = g.leaf(TYPES)
-        elif r < 0.8:
+            if rng.random() < 0.3:
+                # flat: strings and numbers only
+                e["kw"] = {k: rng.choice([0, 1, "mm", "", {"o": "1.5"}, {"o": "None"}]) for k in e["kw"]}
+        elif r < 0.75:
             args = [g.leaf(TYPES) for _ in range(rng.randint(1, 4))]
             kw = _rand_kw(rng, pmax=1)
             if rng.random() < 0.3:
-                kw["name"] = "xy"
+                kw["name"] = rng.choice(["xy", ""])
             e = {"k": "combine", "args": args, "kw": kw}
         else:
             e = {"k": "compose", "args": [g.leaf(TYPES) for _ in range(rng.randint(1, 3))],
-                 "kw": ({"name": "foo"} if rng.random() < 0.4 else {})}
+                 "kw": ({"name": "foo"} if rng.random() < 0.3 else (_rand_kw(rng, pmax=1) if rng.random() < 0.4 else {}))}
+        known = _known_attrs(e)
         ops = []
-        for _ in range(rng.randint(2, 7)):
-            q = rng.random()
-            if q < 0.4:
-                ops.append({"get": rng.choice(pool_get + list(e["kw"]))})
-            elif q < 0.6:
-                ops.append({"set": rng.choice(["a", "b", "u", "name", "unit", "dim", "ta"]), "v": _rand_value(rng)})
-            elif q < 0.75:
-                ops.append({"item": rng.randint(-6, 5)})
-            elif q < 0.9:
-                ops.append({"call": g.pre_value()})
-            elif q < 0.95:
-                ops.append({"vcn": True})
-            else:
+        if rng.random() < 0.55:
+            # applications with changes of the attributes in between
+            for _ in range(rng.randint(1, 3)):
+                if rng.random() < 0.8:
+                    ops.append({"call": g.pre_value()})
+                for _ in range(rng.randint(1, 2)):
+                    ops.append(_rand_mod(rng, known))
+                if rng.random() < 0.3:
+                    ops.append({"get": rng.choice(pool_get + sorted(known))})
+            ops.append({"call": g.pre_value()})
+            if rng.random() < 0.3:
                 ops.append({"vc": True})
+        else:
+            for _ in range(rng.randint(2, 7)):
+                q = rng.random()
+                if q < 0.4:
+                    ops.append({"get": rng.choice(pool_get + list(e["kw"]))})
+                elif q < 0.6:
+                    ops.append(_rand_mod(rng, known))
+                elif q < 0.75:
+                    ops.append({"item": rng.randint(-6, 5)})
+                elif q < 0.9:
+                    ops.append({"call": g.pre_value()})
+                elif q < 0.95:
+                    ops.append({"vcn": True})
+                else:
+                    ops.append({"vc": True})
         yield {"kind": "attr", "expr": e, "ops": ops}
 
 
@@ -1554,6 +2120,21 @@ def _attr_exhaustive():
              {"k": "combine", "args": [_leaf(1, "ta"), _leaf(2, "")], "kw": {"name": "xy", "b": 2}},
              {"k": "compose", "args": [_leaf(1, "ta"), _leaf(2, "tb", {"u": "cm"})], "kw": {"name": "foo", "b": 2}}]
     val = {"d": 5, "c": {"d": {"x": 1, "variable": {"d": {"name": "z", "type": "p0", "p0": _sub("z")}}}}}
+    # applications with changes of the attributes in between: through dot notation, through the public dictionary
+    # var_context, in place; on a flat untyped variable, a typed one, a Combine, a Compose of one and of two variables
+    exprs3 = exprs + [_leaf(1, "", {"unit": "MeV"}), _leaf(1, "", {}),
+                      {"k": "compose", "args": [_leaf(1, "ta", {"a": 1})], "kw": {}},
+                      {"k": "compose", "args": [_leaf(1, "", {"a": 1})], "kw": {"unit": "mm"}},
+                      {"k": "combine", "args": [_leaf(1, "", {"a": 1})], "kw": {}}]
+    val0 = {"d": 5, "c": None}
+    for e in exprs3:
+        rng_ = {"l": [0, 100]}
+        cases.append({"kind": "attr", "expr": e, "ops": [
+            {"call": val0}, {"set": "range", "v": rng_}, {"call": val}, {"mut": "range", "v": mutated(rng_)}, {"call": val0},
+            {"vcset": "unit", "v": "cm"}, {"get": "unit"}, {"call": val}, {"vcset": "cuts", "v": {"od": {"min": 0}}},
+            {"mut": "cuts", "v": mutated({"od": {"min": 0}})}, {"call": val0}, {"set": "triggers", "v": {"s": ["e", "mu"]}},
+            {"call": val}, {"mut": "triggers", "v": mutated({"s": ["e", "mu"]})}, {"call": val0}, {"vcdel": "range"},
+            {"get": "range"}, {"call": val}, {"set": "axis", "v": {"u": {"unit": "mm"}}}, {"call": val0}, {"vc": True}]})
     for e in exprs:
         cases.append({"kind": "attr", "expr": e,
                       "ops": [{"get": a} for a in ("name", "type", "a", "b", "u", "ta", "compose", "dim", "zz", "_x", "__len__")]
@@ -1570,11 +2151,24 @@ def _attr_exhaustive():
 # value's context, then, step by step, the new objects in the order they appear in the result.
 
 def _is_mut(o):
-    return isinstance(o, (dict, list))
+    return isinstance(o, (dict, list, set, collections.deque, _Obj))
+
+
+def _children(o):
+    """the values an object holds, in the order the token model lists them (a set holds immutable values only; a user
+    object holds its attribute dictionary)"""
+    if isinstance(o, dict):
+        return [o[k] for k in sorted(o)]
+    if isinstance(o, _Obj):
+        return [o.__dict__]
+    if isinstance(o, set):
+        return []
+    return list(o)
 
 
 def _tv(o, ids, alive):
-    """encode with tokens; objects not seen before get the next token"""
+    """encode with tokens; objects not seen before get the next token.  Sets, deques and user objects are tagged lists
+    (TAG_SET, ...), as in the value encoding of the model"""
     if o is None or isinstance(o, (bool, float, int, str)):
         return enc(o)
     if isinstance(o, tuple):
@@ -1586,6 +2180,12 @@ def _tv(o, ids, alive):
         k = ids[id(o)]
         if isinstance(o, list):
             return {"l": [_tv(x, ids, alive) for x in o], "k": k}
+        if isinstance(o, set):
+            return {"l": [TAG_SET] + enc(o)["s"], "k": k}
+        if isinstance(o, collections.deque):
+            return {"l": [TAG_DEQUE] + [_tv(x, ids, alive) for x in o], "k": k}
+        if isinstance(o, _Obj):
+            return {"l": [TAG_OBJ, _tv(o.__dict__, ids, alive)], "k": k}
         return {"dd": {key: _tv(o[key], ids, alive) for key in sorted(o)}, "k": k}
     return {"obj": type(o).__name__}
 
@@ -1596,7 +2196,7 @@ def _reach(o, acc):
             _reach(x, acc)
     elif _is_mut(o) and id(o) not in acc:
         acc.add(id(o))
-        for x in (o.values() if isinstance(o, dict) else o):
+        for x in _children(o):
             _reach(x, acc)
     return acc
 
@@ -1612,6 +2212,10 @@ def _ref(o):
 def _shallow(o):
     if isinstance(o, dict):
         return tuple(sorted((str(k), _ref(v)) for k, v in o.items()))
+    if isinstance(o, set):
+        return tuple(sorted(repr(x) for x in o))
+    if isinstance(o, _Obj):
+        return _shallow(o.__dict__)
     return tuple(_ref(v) for v in o)
 
 
@@ -1693,7 +2297,7 @@ def _tv_from_model(m, names, ren):
     k = ren[m["k"]]
     if "l" in m:
         return {"l": [_tv_from_model(x, names, ren) for x in m["l"]], "k": k}
-    return {"dd": {names[i]: _tv_from_model(x, names, ren) for i, x in enumerate(m["d"]) if x is not None}, "k": k}
+    return {"dd": {names[i]: _tv_from_model(x, names, ren) for i, x in m["D"]}, "k": k}
 
 
 def _vc_tokens(res):
@@ -1809,6 +2413,12 @@ def _tok_exhaustive():
              {"k": "compose", "args": [_leaf(1, "ta"), _leaf(2, "")], "kw": {}},
              {"k": "combine", "args": [_leaf(1, "ta", {"u": {"l": [7]}}), _leaf(2, "")], "kw": {}},
              {"k": "combine", "args": [_leaf(1, "ta"), _leaf(2, "tb")], "kw": {"type": "tg", "a": {"l": [1]}}}]
+    exprs2 = [_leaf(1, "", {"a": {"s": [1, 2]}, "b": {"u": {"u": {"l": [1]}}}}),
+              _leaf(1, "ta", {"a": {"dq": [{"l": [1]}, 2]}, "u": {"od": {"b": {"s": ["e"]}}}}),
+              {"k": "compose", "args": [_leaf(1, "ta", {"u": {"s": [7]}}), _leaf(2, "tb", {"a": {"u": {}}})], "kw": {"b": {"dq": []}}}]
+    for e in exprs2:
+        for val in _pre_vals()[:4]:
+            cases.append({"kind": "tok", "exprs": [e], "val": val, "reps": 2})
     for e in exprs:
         for val in _pre_vals():
             cases.append({"kind": "tok", "exprs": [e], "val": val, "reps": 3})
@@ -1823,29 +2433,150 @@ def _tok_exhaustive():
 
 
 # ---------------------------------------------------------------------------------------------
+# kind "ctor": the constructors on object identities (Model/C14X.lean `composeInitT`)
+#   {"kind":"ctor","k":"compose"|"combine","args":[E..]}
+# Compose(*args) / Combine(*args) is constructed from different Variable objects; the objects of the arguments'
+# var_contexts are numbered by id() in pre-order, then the new objects of the result's var_context.
+
+def _ctor_run_impl(case):
+    try:
+        args = [build(e) for e in case["args"]]
+    except Exception as e:
+        return {"e": exc_name(e), "phase": "init"}
+    ids, alive = {}, []
+    res = {"args": [_tv(a.var_context, ids, alive) for a in args]}
+    res["next"] = len(ids)
+    arg_objs = set()
+    for a in args:
+        _reach(a.var_context, arg_objs)
+    before = {id(o): _shallow(o) for o in alive}
+    snap = [enc(a.var_context) for a in args]
+    try:
+        from lena.variables import Compose, Combine
+        comp = (Compose if case["k"] == "compose" else Combine)(*args)
+    except Exception as e:
+        res["e2"] = exc_name(e)
+        return res
+    res["res"] = _tv(comp.var_context, ids, alive)
+    res["erased"] = enc(comp.var_context)
+    res["shared"] = sorted(ids[i] for i in _reach(comp.var_context, set()) if i in arg_objs)
+    res["changed"] = sorted(ids[i] for i, sn in before.items() if _shallow(alive[ids[i]]) != sn)
+    res["args_changed"] = [[a, b] for a, b in zip(snap, [enc(a.var_context) for a in args]) if a != b]
+    return res
+
+
+def _ctor_model_requests(case):
+    if case["k"] != "compose":
+        return []         # Combine: no token model of the constructor; the oracle evaluates the statement on the objects
+    names = alphabet(case)
+    return [{"op": "ctor", "names": names, "fx": detect_fx(), "nk": detect_nk(),
+             "args": [expr_to_model(e, names) for e in case["args"]]}]
+
+
+def _ctor_compare(case, res, replies):
+    names = alphabet(case)
+    m = replies[0]
+    if "err" in m:
+        return f"model driver error: {m['err']}"
+    if "phase" in m or "phase" in res:
+        if m.get("e") != res.get("e") or m.get("phase") != res.get("phase"):
+            return f"construction of the arguments: impl {res if 'e' in res else 'ok'} vs model {m if 'e' in m else 'ok'}"
+        return None
+    ren = {i: i for i in range(m["next"])}
+    if m["next"] != res["next"] or [_tv_from_model(x, names, ren) for x in m["args"]] != res["args"]:
+        return f"numbering of the objects: impl next={res['next']} args={res['args']} vs model next={m['next']} args={m['args']}"
+    err = [st["e"] for st in m["steps"] if "e" in st]
+    if err or "e2" in res:
+        if (err[0] if err else None) != res.get("e2"):
+            return f"Compose(*args): impl {res.get('e2', 'ok')} vs model composeInitT {err[0] if err else 'ok'}"
+        return None
+    if not m["fresh"]:
+        return "the model's Compose shares objects with its arguments (composeInitT_result_fresh must exclude this)"
+    if m["res"] is None:
+        return "the model gives no var_context"
+    if res["shared"] or res["changed"]:
+        return None       # the oracle reports it; the identities of a sharing implementation cannot be compared further
+    c = _tv_from_model(m["res"], names, ren)
+    if c != res["res"]:
+        return f"identities of the new var_context: impl {res['res']} vs model composeInitT {c}"
+    return None
+
+
+def _ctor_oracle(case, res):
+    """Constructing Compose(v1..vn) / Combine(v1..vn) keeps each variable's description: it changes no var_context of
+    an argument, writes to none of their objects, and the new variable's var_context shares no mutable object with
+    them (otherwise a later change of the composition -- an attribute set on it, a keyword -- would change them)."""
+    if "e" in res or "e2" in res:
+        return None
+    what = case["k"].capitalize()
+    if res["args_changed"]:
+        a, b = res["args_changed"][0]
+        return f"constructing {what}(v1..vn) changed the var_context of an argument: {a} -> {b}"
+    if res["changed"]:
+        return f"constructing {what}(v1..vn) wrote to objects of the arguments' var_contexts: tokens {res['changed']}"
+    if res["shared"]:
+        return (f"the var_context of the new {what} shares mutable objects with the var_context of its arguments (tokens "
+                f"{res['shared']}): a later change of the {what}'s attributes changes the argument")
+    return None
+
+
+def _ctor_cases(rng, n):
+    g = _Gen(rng)
+    for _ in range(n):
+        g.n = 0
+        r = rng.random()
+        if r < 0.85:
+            args = [g.expr(TYPES, depth=1) for _ in range(rng.randint(1, 4))]
+        else:
+            args = [e for e in _wild_case(rng)["chain"] if e["k"] != "other"] or [g.leaf(TYPES)]
+        yield {"kind": "ctor", "k": "compose" if rng.random() < 0.7 else "combine", "args": args}
+
+
+def _ctor_exhaustive():
+    cases = []
+    kws = [{}, {"a": 1}, {"a": {"l": [0, 1]}, "u": {"d": {"b": {"l": [1]}}}}, {"a": {"s": [1]}, "b": {"u": {"u": {"l": []}}}, "u": {"dq": [{"l": [1]}]}}]
+    for k in ("compose", "combine"):
+        for n in (1, 2, 3):
+            for tys in itertools.product(("", "t"), repeat=n):
+                for kw in kws:
+                    args = [_leaf(i + 1, TYPES[i] if t else "", kw if i % 2 == 0 else {}) for i, t in enumerate(tys)]
+                    cases.append({"kind": "ctor", "k": k, "args": args})
+        inner = {"k": "compose", "args": [_leaf(1, "ta", kws[2]), _leaf(2, "")], "kw": {"b": {"l": [2]}}}
+        cases.append({"kind": "ctor", "k": k, "args": [inner]})
+        cases.append({"kind": "ctor", "k": k, "args": [inner, {"k": "combine", "args": [_leaf(3, "tc", kws[3])], "kw": {}}]})
+    return cases
+
+
+# ---------------------------------------------------------------------------------------------
 # dispatch on the kind of a case
 
 def _kind(case):
     return case.get("kind", "chain")
 
 
+_KINDS = {"attr": 0, "tok": 1, "ctor": 2}
+
+
 def run_impl(case):
-    return {"attr": _attr_run_impl, "tok": _tok_run_impl}.get(_kind(case), _chain_run_impl)(case)
+    return {"attr": _attr_run_impl, "tok": _tok_run_impl, "ctor": _ctor_run_impl}.get(_kind(case), _chain_run_impl)(case)
 
 
 def model_requests(case):
-    return {"attr": _attr_model_requests, "tok": _tok_model_requests}.get(_kind(case), _chain_model_requests)(case)
+    return {"attr": _attr_model_requests, "tok": _tok_model_requests,
+            "ctor": _ctor_model_requests}.get(_kind(case), _chain_model_requests)(case)
 
 
 def compare(case, res, replies):
-    return {"attr": _attr_compare, "tok": _tok_compare}.get(_kind(case), _chain_compare)(case, res, replies)
+    return {"attr": _attr_compare, "tok": _tok_compare, "ctor": _ctor_compare}.get(_kind(case), _chain_compare)(case, res, replies)
 
 
 def oracle(case, res):
-    return {"attr": _attr_oracle, "tok": _tok_oracle}.get(_kind(case), _chain_oracle)(case, res)
+    return {"attr": _attr_oracle, "tok": _tok_oracle, "ctor": _ctor_oracle}.get(_kind(case), _chain_oracle)(case, res)
 
 
 def nontrivial(case, res):
+    if _kind(case) == "ctor":
+        return True
     if _kind(case) == "tok":
         return "e" in res or any("e" in st or st.get("changed") for st in res["steps"])
     if _kind(case) == "attr":
@@ -1854,6 +2585,8 @@ def nontrivial(case, res):
 
 
 def classify(case, res):
+    if _kind(case) == "ctor":
+        return ["ctor", "ctor:" + case["k"], "ctor:" + (res.get("e") or res.get("e2") or "ok"), "ctor:n=%d" % len(case["args"])]
     if _kind(case) == "tok":
         if "e" in res:
             return ["tok", "tok:init:" + res["e"]]
@@ -1873,6 +2606,21 @@ def classify(case, res):
 
 
 def shrink(case):
+    if _kind(case) == "ctor":
+        args = case["args"]
+        if len(args) > 1:
+            for i in range(len(args)):
+                yield dict(case, args=args[:i] + args[i + 1:])
+        for i, e in enumerate(args):
+            if e["k"] in ("compose", "combine"):
+                for a in e["args"]:
+                    if a["k"] != "other":
+                        yield dict(case, args=args[:i] + [a] + args[i + 1:])
+            for k in list(e.get("kw", {})):
+                kw = dict(e["kw"])
+                del kw[k]
+                yield dict(case, args=args[:i] + [dict(e, kw=kw)] + args[i + 1:])
+        return
     if _kind(case) == "tok":
         if case["reps"] > 1:
             yield dict(case, reps=case["reps"] - 1)
